@@ -1114,8 +1114,11 @@ class Timezone(Component):
         """Return the timezone example with the given name."""
         return cls.from_ical(get_example("timezones", name))
 
-    @staticmethod
-    def _extract_offsets(component: TimezoneDaylight|TimezoneStandard, tzname:str):
+    # daily transitions from 1970 to 2038 are about 25000
+    _MAX_RRULE_TRANSITIONS = 100000
+
+    @classmethod
+    def _extract_offsets(cls, component: TimezoneDaylight|TimezoneStandard, tzname:str):
         """extract offsets and transition times from a VTIMEZONE component
         :param component: a STANDARD or DAYLIGHT component
         :param tzname: the name of the zone
@@ -1146,7 +1149,14 @@ class Timezone(Component):
             # constructing the timezone requires UTC transition times.
             # here we construct local times without tzinfo, the offset to UTC
             # gets subtracted in to_tz().
-            transtimes = [dt.replace (tzinfo=None) for dt in rrule]
+            transtimes = []
+            for dt in rrule:
+                transtimes.append(dt.replace (tzinfo=None))
+                if len(transtimes) > cls._MAX_RRULE_TRANSITIONS:
+                    # e.g. FREQ=SECONDLY or INTERVAL=0 would not terminate
+                    raise ValueError(
+                        f"RRULE:{rrulestr} creates too many transitions."
+                    )
 
         # or rdates
         elif 'RDATE' in component:
